@@ -14,15 +14,13 @@ THEOREMS = [
     ("C19_initial_state", """forall src c,
       inv (with_capacity src c) /\\ abs (with_capacity src c) = bits_of_bytes (sdata src)"""),
     ("C19_refill_preserves_abs", """forall st,
-      inv st -> (buf_bits st + 7 < 8 * cap st \\/ src_rest st = []) ->
+      inv st ->
       exists st', fill_buf st = (Ok tt, st') /\\ inv st' /\\ cap st' = cap st /\\ abs st' = abs st /\\
                   (8 * cap st - 7 <= buf_bits st' \\/ src_rest st' = [])"""),
     ("C19_refill_on_request", """forall st r,
       inv st -> 16 <= cap st -> r <= 121 ->
       exists st', ensure r st = (Ok tt, st') /\\ inv st' /\\ cap st' = cap st /\\ abs st' = abs st /\\
                   (r <= buf_bits st' \\/ src_rest st' = [])"""),
-    ("C19_refill_any_position_refuted", """exists st, inv st /\\ cap st = 16 /\\
-      exists st', fill_buf st = (Ok tt, st') /\\ abs st' <> abs st"""),
     ("C19_read_is_ideal", """forall st,
       inv st -> 16 <= cap st ->
       (forall w n, w <= 64 -> agrees 0 st (ideal_read w n (abs st)) (read w n st)) /\\
@@ -70,29 +68,29 @@ ASSUMPTIONS = [
     "read_to_end's inner read sizes are modelled for capacities <= 8192 (DEFAULT_BUF_SIZE); results do not depend on them",
     "a consumer is a decision tree over the values read (cprog); LosslessImage::read itself is modelled by the Vp8l area, here it is exercised in situ "
     "through the public LosslessImage::read on a BitBufReader of arbitrary capacity (what sanitize_image_data does with 4096)",
-    "whole-file in situ (webpsan::sanitize under a capacity hook) needs `pub fn verif_set_bitbuf_capacity(cap: usize)` in webpsan under cfg(signalapp_mp4san_verif) "
-    "and the harness built with --cfg verif_caphook; without it those cases print `no-hook` and are skipped",
+    "whole-file in situ uses the hook webpsan::verif_set_bitbuf_capacity (cfg signalapp_mp4san_verif; harness built with --cfg verif_caphook by the framework "
+    "when the hook is present; a process-global, so each harness process runs its cases sequentially)",
 ]
 RULE = ("field sequences through the public BitBufReader<_, LE>::with_capacity(reader, cap) over a reader with a prescribed cyclic short-read pattern: "
         "exhaustive small domain (capacities 16..24 x stream lengths 0..40 x 12 fixed-width patterns), refill-boundary lattice "
         "(consume 8*cap - k bits, then read n, for capacities 16,17,31,32,33,63,64,4096), seeded random sequences of "
         "read::<u8|u16|u32|u64>(0..64 and over-wide), read_bit, read_huffman (random complete canonical codes, depth <= 15, and single-leaf trees), "
         "the loop-head check `if buf_bits() < r { fill_buf() }` followed by buf_read/buf_read_bit/buf_read_huffman/buf_read_lz77, explicit fill_buf at safe positions, "
-        "buf_bits; capacities 16..64 and 4096, streams 0..12 KiB; separately: capacities < 16, bare fill_buf on a full buffer, requests > 8*cap-7 bits, "
-        "continuing after errors (model vs implementation only). In situ: structure-aware VP8L streams (transforms with entropy-coded sub-images, "
+        "buf_bits; capacities 16..64 and 4096, streams 0..12 KiB; bare fill_buf at arbitrary positions (full buffer included); separately: capacities < 16 and "
+        "continuing after errors (model vs implementation only), requests > 8*cap-7 bits. In situ: structure-aware VP8L streams (transforms with entropy-coded sub-images, "
         "meta prefix image, prefix-code groups; deep codes; long back-references with up to 10+18 extra bits), their truncations and bit flips, through "
         "LosslessImage::read at capacities 16..64 against 4096. Non-trivial = the stream is longer than the capacity (at least one real refill) or ends in end-of-data.")
 EXHAUSTIVE = {"quick": False, "thorough": False}
 XCHECK_N = 40
-FINDING_RAWFILL = "D13"
 NOTES = [
-    "finding (public API only, unreachable from webpsan itself): BitBufReader::fill_buf called when the buffer is full and fewer than 8 bits have been "
-    "consumed reads nothing and sets input = None, so the rest of the source is lost and later reads report TruncatedChunk although data remains "
-    "(witness: seq 16 100 <32 bytes> f f r64 r64 r64 -> third read TruncatedChunk; Coq: C19_refill_any_position_refuted). webpsan only calls fill_buf "
-    "behind `buf_bits() < needed` with needed <= 81, for which C19_refill_on_request shows room always exists when capacity >= 11 (>= 16 in the statement). "
-    "Such cases are generated in the stream `rawfill`; they are judged by the oracle only if known_findings.txt lists id %s for C19, otherwise compared model-vs-implementation only." % FINDING_RAWFILL,
-    "observed threshold: with the largest read-ahead (81 bits) capacities <= 10 change verdicts (10 and 8 seen); 11..15 did not - consistent with r + 7 <= 8*cap",
-    "`insitu` cases print `no-hook` until the capacity hook exists in /repo; they are then skipped (counted in the distribution as no-hook)",
+    "repaired defect (fixed: 76e133f): fill_buf on a full buffer with fewer than 8 bits consumed used to set input = None and lose the rest of the "
+    "source; with `if buf.len() < buf.capacity()` the refill is transparent at every position (C19_refill_preserves_abs has no side condition; "
+    "Example double_fill_keeps_the_source; corpus case `seq 16 100 <32 bytes> s f f r64 r64 r64`). Bare fill_buf at arbitrary positions is "
+    "generated (stream `barefill`) and judged by the oracle.",
+    "observed threshold: with the largest read-ahead (81 bits) capacities <= 10 change verdicts (10 and 8 seen); 11..15 did not - consistent with r + 7 <= 8*cap "
+    "(Example capacity_8_is_not_enough: the bound is tight for 64-bit reads)",
+    "`insitu` cases run webpsan::sanitize on whole files under the capacity hook (webpsan::verif_set_bitbuf_capacity); on a tree without the hook they print "
+    "`no-hook` and are skipped",
     "capacities < 16 are observations: compared model vs implementation, not judged by the oracle",
 ]
 
@@ -232,9 +230,15 @@ def _corpus():
     yield "seq 17 1 %s s r5 r64 r64 r3 r64 r64 r64" % bytes(range(1, 60)).hex(), "corpus"
     yield "seq 16 5,1 %s s b r64 r64 r64 r64 r64" % bytes(range(100, 150)).hex(), "corpus"
     yield "seq 24 7 %s s r13 e81 br10 br15 br18 br15 r64 r64 r64" % bytes(range(7, 77)).hex(), "corpus"
-    # the bare-fill_buf finding and the small-capacity observations
-    yield "seq 16 100 %s s f f r64 r64 r64" % d32, "rawfill"
-    yield "seq 4096 100000 %s s r1 f r64" % bytes(i & 255 for i in range(5000)).hex(), "rawfill"
+    # the actual Vec capacity as observed through buf_bits after the first fill (8 * capacity when the source is long enough)
+    yield "seq 16 100000 %s s f q r8 q" % bytes(range(40)).hex(), "corpus"
+    yield "seq 33 1 %s s f q b q" % bytes(range(80)).hex(), "corpus"
+    yield "seq 4096 4095 %s s f q r64 q" % bytes(i & 255 for i in range(5000)).hex(), "corpus"
+    # the repaired defect: bare fill_buf on a full buffer (fewer than 8 bits consumed)
+    yield "seq 16 100 %s s f f r64 r64 r64 r64 r1" % d32, "corpus"
+    yield "seq 16 1 %s s r3 f f q r64 f r64 r64 r64 b" % d32, "corpus"
+    yield "seq 4096 100000 %s s r1 f r64 q" % bytes(i & 255 for i in range(5000)).hex(), "corpus"
+    # small-capacity observations
     yield "seq 8 100 %s c b r64 r64 r8 q f q r8" % d32, "smallcap"
     yield "seq 0 5 0102 s r0 r1", "smallcap"
 
@@ -313,7 +317,7 @@ def _malformed_seq(run, count):
             ops += ["r64", "b", "q", "f", "q", "r8"]
         elif kind == "smallcap":
             cap = rng.randint(0, 15)
-        stream = {"rawfill": "rawfill", "smallcap": "smallcap", "cont": "continue"}.get(kind, "malformed")
+        stream = {"rawfill": "barefill", "smallcap": "smallcap", "cont": "continue"}.get(kind, "malformed")
         yield "seq %d %s %s %s %s" % (cap, _chunks(rng), _hex(data), mode, " ".join(ops)), stream
 
 
@@ -427,7 +431,7 @@ def _width_n(s):
     return 64, int(s)
 
 
-def check_seq(line, impl, judge_rawfill):
+def check_seq(line, impl):
     t = line.split()
     cap, data, toks = int(t[1]), (bytes.fromhex(t[3]) if t[3] != "-" else b""), t[5:]
     if impl in ("panic", "missing", "") or impl.startswith(("unknown", "bad-")):
@@ -443,7 +447,7 @@ def check_seq(line, impl, judge_rawfill):
         for i in range(8):
             bits.append((b >> i) & 1)
     total = len(bits)
-    pos, budget, tainted, maybe_full, since = 0, 0, False, False, 0
+    pos, budget = 0, 0
     trees = []
     oi = 0
     TR = "E:parse:TruncatedChunk"
@@ -498,10 +502,7 @@ def check_seq(line, impl, judge_rawfill):
                 cost = eb
                 exp = str(((2 + (c & 1)) << eb) + val(eb) + 1) if total - pos >= eb else None
         elif tok == "f":
-            if maybe_full and since < 8 and not judge_rawfill:
-                # bare fill_buf with a possibly full buffer: the known defect class (judged strictly only once listed)
-                return True, "bare fill_buf on a possibly full buffer: not judged (finding %s)" % FINDING_RAWFILL
-            exp = "ok"
+            exp = "ok"          # transparent at every position; afterwards the buffer is full or the source exhausted
         elif tok == "q":
             m = re.match(r"q=(\d+)$", got)
             if not m:
@@ -509,7 +510,7 @@ def check_seq(line, impl, judge_rawfill):
             q = int(m.group(1))
             if q > total - pos or q > 8 * cap:
                 return False, "buf_bits %d exceeds what is left (%d) or the capacity" % (q, total - pos)
-            if not tainted and q < min(budget, total - pos):
+            if q < min(budget, total - pos):
                 return False, "buf_bits %d below the announced %d with %d bits left" % (q, budget, total - pos)
             continue
         elif tok.startswith("e"):
@@ -518,18 +519,14 @@ def check_seq(line, impl, judge_rawfill):
         else:
             return False, "unknown op " + tok
         if refilling:
-            if tok != "f" and req > maxreq:
-                tainted = True          # a request the buffer cannot hold: outside the guarantee
-            if tok != "f":
-                budget = max(budget, req) if req <= maxreq else 0
-            elif not tainted:
-                budget = max(budget, maxreq)
-            maybe_full, since = True, 0
+            # after `if buf_bits() < req { fill_buf() }` (or a bare fill_buf) min(req, 8*cap-7) bits are buffered or the source
+            # is exhausted; a request the buffer cannot hold (req > 8*cap-7) guarantees only that much
+            budget = max(budget, maxreq if tok == "f" else min(req, maxreq))
         if want_err:
             if got != want_err:
                 return False, "op %s at bit %d: expected %s, got %s" % (tok, pos, want_err, got)
             return True, "ends with %s as specified" % want_err
-        strict = (not tainted) and (refilling or cost <= budget)
+        strict = cost <= budget
         if exp is None:
             # the whole byte string has fewer bits than requested: end of data must be reported
             if got != TR:
@@ -537,11 +534,10 @@ def check_seq(line, impl, judge_rawfill):
             return True, "end of data exactly at exhaustion"
         if got == exp:
             pos += cost
-            since += cost
             budget = max(0, budget - cost)
             continue
         if got == TR and not strict:
-            return True, "TruncatedChunk on an access outside the guarantees (unguarded / tainted): allowed"
+            return True, "TruncatedChunk on a buffer-only access beyond the announced read-ahead: allowed"
         return False, "op %s at bit %d of %d: expected %s, got %s" % (tok, pos, total, exp, got)
     return True, "all fields as read from the whole byte string"
 
@@ -572,12 +568,6 @@ def nontrivial(line, impl):
 
 
 def oracle(run, pairs):
-    try:
-        import framework
-        known = {k for k, _ in framework.load_known(ID)[0]}
-    except Exception:
-        known = set()
-    judge_rawfill = FINDING_RAWFILL in known
     # reference verdicts (capacity 4096) for the in-situ kinds
     ref = {}
     for line, impl in pairs:
@@ -590,7 +580,7 @@ def oracle(run, pairs):
     for line, impl in pairs:
         t = line.split()
         if t[0] == "seq":
-            out.append(check_seq(line, impl, judge_rawfill))
+            out.append(check_seq(line, impl))
         elif t[0] in ("lossless", "insitu"):
             if impl == "no-hook":
                 out.append((True, "skipped: capacity hook not present in the tree under test"))
@@ -608,38 +598,6 @@ def oracle(run, pairs):
         else:
             out.append((False, "unknown case kind"))
     return out
-
-
-def _has_unsafe_fill(toks):
-    """a bare fill_buf that may meet a full buffer: fewer than 8 bits certainly consumed since the last possible refill"""
-    maybe_full, since = False, 0
-    for tok in toks:
-        if tok.startswith("T"):
-            continue
-        if tok == "f":
-            if maybe_full and since < 8:
-                return True
-            maybe_full, since = True, 0
-        elif tok.startswith("br"):
-            w, n = _width_n(tok[2:])
-            since += n if n <= w else 0
-        elif tok == "bb":
-            since += 1
-        elif tok == "b":
-            maybe_full, since = True, 1
-        elif tok.startswith("r"):
-            w, n = _width_n(tok[1:])
-            maybe_full, since = True, (n if n <= w else 0)
-        elif tok[0] in "he":
-            maybe_full, since = True, 0
-    return False
-
-
-def known_class(line, impl):
-    t = line.split()
-    if t[0] == "seq" and int(t[1]) >= 16 and _has_unsafe_fill(t[5:]):
-        return FINDING_RAWFILL
-    return None
 
 
 def search(run, disagreements):
